@@ -84,7 +84,27 @@ def spec_ok(lines, out, cfg):
     return None
 
 
+def judge_threads(case):
+    from .. import pysched  # pylint: disable=import-outside-toplevel
+    ind = mk_indentizer(case['cfg'])
+    fn_a, fn_b = (lambda: ind.to_list(case['la'])), (lambda: ind.to_str(case['lb']))
+    ref_a, ref_b = pysched.outcome(fn_a), pysched.outcome(fn_b)
+    obs = []
+    for _rep in range(2):
+        res_a, res_b, reached = pysched.run_preempted(fn_a, fn_b, case['index'])
+        if not reached:
+            raise RuntimeError('replay divergence')
+        obs.append((res_a, res_b))
+    if obs[0] != obs[1]:
+        raise RuntimeError('the same schedule gave two observations')
+    if obs[0] != (ref_a, ref_b):
+        return [('shared-indenter-two-threads', f'replayed: {obs[0]} alone: {(ref_a, ref_b)}')]
+    return []
+
+
 def judge(case):
+    if case.get('threads'):
+        return judge_threads(case)
     from dznpy.text_gen import TextBlock  # pylint: disable=import-outside-toplevel
     lines, cfg = case['lines'], case['cfg']
     out = []
@@ -109,6 +129,22 @@ def judge(case):
         err = spec_ok(res, res2, cfg)
         if err:
             bad('to_list-twice', err)
+        # REENTRANCY: a content item whose __str__ renders other content with this very indenter (a shared style
+        # constant used by a nested text object) - same result as with the inner rendering handed over as plain lines
+        inner = ind.to_list(['in1', '', 'in2'])
+
+        class Nested:  # pylint: disable=too-few-public-methods
+            def __str__(self):
+                return '\n'.join(ind.to_list(['in1', '', 'in2']))
+        for pos in sorted({0, len(lines)}):
+            plain = list(lines[:pos]) + ['\n'.join(inner)] + list(lines[pos:])
+            nested = list(lines[:pos]) + [Nested()] + list(lines[pos:])
+            want = ind.to_list(plain)
+            if ind.to_list(nested) != want:
+                bad('to_list-reentrant', f'content item at {pos} that renders with the same indenter while being stringified: '
+                                         f'{ind.to_list(nested)!r}, with its text handed over as a string: {want!r}')
+            if ind.to_list(list(lines)) != res:
+                bad('to_list-after-reentrant-use', 'a later plain call differs')
         # string form
         try:
             as_str = ind.to_str(list(lines))
@@ -231,6 +267,28 @@ def work(slot):
                 part.outcome(f'{cfg["indentor"]}/{cfg["mode"]}/long')
                 for key, what in res:
                     part.violation(key, what, case)
+    # SCHEDULES: two Python threads render different contents with ONE shared indenter object (a module-level style
+    # constant): every one-preemption schedule gives both their sequential result
+    from .. import pysched  # pylint: disable=import-outside-toplevel
+    for ci, cfg in enumerate(long_cfgs + [c for c in cfgs if 'preset' in c]):
+        if ci % nslots != idx:
+            continue
+        ind = mk_indentizer(cfg)
+        for la, lb in ((['a1', '', 'a2'], ['b1', 'b2']), (['a1'], ['b1', '', 'b2', 'b3']), ([['a1', 'a2'], 'a3'], ['b1'])):
+            fn_a, fn_b = (lambda la=la: ind.to_list(la)), (lambda lb=lb: ind.to_str(lb))
+            ref_a, ref_b = pysched.outcome(fn_a), pysched.outcome(fn_b)
+            for i, loc, res_a, res_b in pysched.explore_pair(fn_a, fn_b, every=1):
+                part.evaluations += 1
+                part.transitions += 2
+                part.nontrivial += 1
+                part.extra['python_thread_schedules'] += 1
+                part.outcome('shared-indenter-two-threads')
+                if res_a != ref_a or res_b != ref_b:
+                    part.violation('shared-indenter-two-threads',
+                                   f'one Indentizer used by two threads: thread A to_list({la!r}) preempted at line event {i} '
+                                   f'({loc[0].split("/")[-1]}:{loc[1]}), thread B to_str({lb!r}) in between: A={res_a!r} (alone {ref_a!r}) '
+                                   f'B={res_b!r} (alone {ref_b!r}) | cfg={cfg!r}',
+                                   {'threads': True, 'cfg': cfg, 'la': la, 'lb': lb, 'index': i})
     part.states = part.evaluations
     return part
 
@@ -238,7 +296,9 @@ def work(slot):
 def explore(ctx):
     ctx.rule = ('product of all line sequences (len 0..3 over 7 line shapes) and all indenter '
                 'configurations incl. factory presets; each (sequence, configuration) pair is one state; '
-                'non-trivial = at least one non-blank line')
+'non-trivial = at least one non-blank line; plus a content item that renders with the same indenter while '
+                'being stringified (reentrancy); plus two Python threads sharing one indenter object: every one-preemption '
+                'schedule at every library line event')
     ctx.bounds = {'lines': 3, 'line_alphabet': LINE_ALPHABET, 'widths': WIDTHS, 'glyphs': GLYPHS,
                   'long_sequences': '4..12 lines, every blank/text pattern, 10 configurations'}
     for part in pmap(work, [(i, 16) for i in range(16)]):
